@@ -6,6 +6,7 @@ Open Scope Z_scope.
 (** ---- tie: the programs interpreted by the model are the ones extracted from
     /repo/nextline/utils/run.py and multiprocessing_logging.py at this check *)
 Lemma tie_run : run_prog = run_skeleton. Proof. reflexivity. Qed.
+Lemma tie_call : call_prog = call_skeleton. Proof. reflexivity. Qed.
 Lemma tie_outer : outer_prog = outer_skeleton. Proof. reflexivity. Qed.
 Lemma tie_init : init_prog = init_skeleton. Proof. reflexivity. Qed.
 Lemma tie_await : await_prog = await_skeleton. Proof. reflexivity. Qed.
@@ -20,15 +21,13 @@ Lemma tie_all :
   run_prog = run_skeleton /\ outer_prog = outer_skeleton /\ init_prog = init_skeleton /\
   await_prog = await_skeleton /\ interrupt_prog = interrupt_skeleton /\
   send_signal_prog = send_signal_skeleton /\ terminate_prog = terminate_skeleton /\
-  kill_prog = kill_skeleton /\ logging_prog = logging_skeleton /\ exited_prog = exited_fields.
+  kill_prog = kill_skeleton /\ logging_prog = logging_skeleton /\ exited_prog = exited_fields /\
+  call_prog = call_skeleton.
 Proof. repeat split; reflexivity. Qed.
 
 (** ---- when does the cleanup get stuck (see the environment fact in Model.v) *)
 Definition stuck (w : world) : option hang_stage :=
-  match ans w with
-  | ANever => Some HFuture
-  | _ => if collect_logging w && died_in_log_write w then Some HListener else None
-  end.
+  if collect_logging w && died_in_log_write w then Some HListener else None.
 
 (** ---- the trace of effects is the same whatever the future answers *)
 Definition expected_trace (clog : bool) : list ev :=
@@ -37,7 +36,7 @@ Definition expected_trace (clog : bool) : list ev :=
   ++ (if clog then [VListenerSentinel; VListenerAwaited] else []).
 
 Ltac cases_w w :=
-  destruct w as [clog a dw]; destruct clog; destruct a as [v | e | ]; try destruct e;
+  destruct w as [clog a dw]; destruct clog; destruct a as [v | e | e]; try destruct e;
   destruct dw.
 
 Lemma run_trace_exact : forall w,
@@ -46,7 +45,6 @@ Lemma run_trace_exact : forall w,
   | None => expected_trace (collect_logging w)
   | Some HShutdown => firstn 7 (expected_trace true)
   | Some HListener => firstn 9 (expected_trace true)
-  | Some HFuture => firstn (if collect_logging w then 7 else 5) (expected_trace (collect_logging w))
   end.
 Proof. intros w. cases_w w; reflexivity. Qed.
 
@@ -56,7 +54,7 @@ Definition expected_outcome (a : answer) : option Z * option exn :=
   | AValue v => (Some v, None)
   | ARaise EBrokenPool => (None, None)
   | ARaise e => (None, Some e)
-  | ANever => (None, None)
+  | AData e => (None, Some e)
   end.
 
 Lemma run_task_exact : forall w,
@@ -97,25 +95,19 @@ Qed.
 Lemma yields_partial : forall w, stuck w = None -> exists x, await_handle w = Yields x.
 Proof. intros w H. rewrite await_exact, H. eexists. reflexivity. Qed.
 
-Lemma yields_without_logging : forall w,
-  collect_logging w = false -> ans w <> ANever -> exists x, await_handle w = Yields x.
-Proof.
-  intros w H N. apply yields_partial. unfold stuck. rewrite H.
-  destruct (ans w); try reflexivity. contradiction.
-Qed.
+Lemma yields_without_logging : forall w, collect_logging w = false -> exists x, await_handle w = Yields x.
+Proof. intros w H. apply yields_partial. unfold stuck. rewrite H. reflexivity. Qed.
 
-(** a worker that ends in the normal way (the future answers with a value or the worker's
-    exception) and was not killed while logging: always yields, however much it logged *)
-Lemma yields_when_not_killed_logging : forall w,
-  died_in_log_write w = false -> ans w <> ANever -> exists x, await_handle w = Yields x.
-Proof.
-  intros w H N. apply yields_partial. unfold stuck. rewrite H, andb_false_r.
-  destruct (ans w); try reflexivity. contradiction.
-Qed.
+(** a worker that was not killed while logging: always yields, however much it logged and
+    whatever it raised *)
+Lemma yields_when_not_killed_logging : forall w, died_in_log_write w = false -> exists x, await_handle w = Yields x.
+Proof. intros w H. apply yields_partial. unfold stuck. rewrite H, andb_false_r. reflexivity. Qed.
 
-Lemma yields_refuted_stopiteration :
-  exists w, collect_logging w = false /\ consistent (ExnOdd OStopIteration 1, None) (ans w) /\ await_handle w = Hangs HFuture.
-Proof. exists (mkWorld false ANever false). repeat split. left. reflexivity. Qed.
+(** the exception the function raised -- whatever its class: it travels as data -- is yielded exactly *)
+Lemma exception_yielded_exactly : forall w e,
+  ans w = AData e -> stuck w = None ->
+  exists c t, await_handle w = Yields (mkExited None (Some e) c t).
+Proof. intros w e Ha Hs. rewrite await_exact, Hs, Ha. simpl. eauto. Qed.
 
 Lemma yields_refuted_killed_while_logging :
   exists w, ans w = ARaise EBrokenPool /\ await_handle w = Hangs HListener.
@@ -129,9 +121,6 @@ Definition allowed (sc : scenario) : list (option Z * option exn) :=
   match sc with
   | (Ret v, None) => [(Some v, None)]
   | (Exn e, None) => [(None, Some (EWorker e))]
-  | (ExnOdd OStopIteration _, None) => [(None, None)]     (* vacuous: the handle never yields *)
-  | (ExnOdd OCfCancelled e, None) => [(None, Some (EAioCancelled e))]
-  | (ExnOdd OUnloadable _, None) => [(None, None)]
   | (Unpicklable, None) => [(None, Some EPickle)]
   | (SysExit n, None) => [(None, Some (ESysExit n))]
   | (HardExit _, None) => [(None, None)]
@@ -141,7 +130,6 @@ Definition allowed (sc : scenario) : list (option Z * option exn) :=
   | (b, Some (s, Racing)) =>
       [ match b with
         | Ret v => (Some v, None) | Exn e => (None, Some (EWorker e)) | Unpicklable => (None, Some EPickle)
-        | ExnOdd OCfCancelled e => (None, Some (EAioCancelled e)) | ExnOdd _ _ => (None, None)
         | SysExit n => (None, Some (ESysExit n)) | HardExit _ => (None, None) end;
         match s with SInt => (None, Some EKeyboardInt) | _ => (None, None) end;
         (None, None) ]
@@ -149,7 +137,7 @@ Definition allowed (sc : scenario) : list (option Z * option exn) :=
 
 Lemma allowed_is_map : forall sc, allowed sc = map expected_outcome (answers sc).
 Proof.
-  intros [b [[s i] | ]]; destruct b as [v | e | k e | | n | n]; try destruct k; try destruct s; try destruct i; reflexivity.
+  intros [b [[s i] | ]]; destruct b; try destruct s; try destruct i; reflexivity.
 Qed.
 
 Lemma outcome_shape : forall w sc x,
@@ -166,7 +154,7 @@ Lemma value_xor_exception : forall w x,
 Proof.
   intros w x Hx. rewrite await_exact in Hx. destruct (stuck w); [discriminate | ].
   inversion Hx; subst; clear Hx. simpl.
-  destruct (ans w) as [v | e | ]; simpl; auto. destruct e; simpl; auto.
+  destruct (ans w) as [v | e | e]; simpl; auto. destruct e; simpl; auto.
 Qed.
 
 Lemma cleanup_partial : forall w, stuck w = None ->
@@ -183,19 +171,13 @@ Proof.
   intros w. cases_w w; eexists; reflexivity.
 Qed.
 
-(** unless the future itself never answers, the worker process is joined even when the
-    listener is stuck *)
-Lemma process_always_joined : forall w, ans w <> ANever -> joined (run_trace w) = true.
-Proof. intros w N. cases_w w; try reflexivity; exfalso; apply N; reflexivity. Qed.
+(** the worker process is joined even when the listener is stuck *)
+Lemma process_always_joined : forall w, joined (run_trace w) = true.
+Proof. intros w. cases_w w; reflexivity. Qed.
 
 Lemma cleanup_refuted :
-  (exists w, joined (run_trace w) = true /\ helpers_left (run_trace w) = 1%nat) /\
-  (exists w, collect_logging w = false /\ joined (run_trace w) = false /\ helpers_left (run_trace w) = 1%nat).
-Proof.
-  split.
-  - exists (mkWorld true (ARaise EBrokenPool) true). split; reflexivity.
-  - exists (mkWorld false ANever false). repeat split; reflexivity.
-Qed.
+  exists w, joined (run_trace w) = true /\ helpers_left (run_trace w) = 1%nat.
+Proof. exists (mkWorld true (ARaise EBrokenPool) true). split; reflexivity. Qed.
 
 Lemma times_ordered : forall w x, await_handle w = Yields x -> (created_at x < exited_at x)%nat.
 Proof.
@@ -230,15 +212,22 @@ Lemma late_requests :
 Proof. repeat split; reflexivity. Qed.
 
 (** [consistentb] decides [consistent] *)
+Lemma exn_eqb_eq : forall a b, exn_eqb a b = true <-> a = b.
+Proof.
+  intros a b; split.
+  - destruct a; destruct b; simpl; try discriminate; try reflexivity;
+      intros H; apply Z.eqb_eq in H; subst; reflexivity.
+  - intros ->. destruct b; simpl; try reflexivity; apply Z.eqb_refl.
+Qed.
+
 Lemma answer_eqb_eq : forall a b, answer_eqb a b = true <-> a = b.
 Proof.
   intros a b; split.
-  - destruct a as [x | e | ]; destruct b as [y | e' | ]; try destruct e; try destruct e'; simpl;
-      try discriminate; try reflexivity; intros H; apply Z.eqb_eq in H; subst; reflexivity.
-  - intros ->. destruct b as [y | f | ]; simpl.
-    + apply Z.eqb_refl.
-    + destruct f; simpl; try reflexivity; apply Z.eqb_refl.
-    + reflexivity.
+  - destruct a; destruct b; simpl; try discriminate; intros H.
+    + apply Z.eqb_eq in H; subst; reflexivity.
+    + apply exn_eqb_eq in H; subst; reflexivity.
+    + apply exn_eqb_eq in H; subst; reflexivity.
+  - intros ->. destruct b; simpl; try apply Z.eqb_refl; apply exn_eqb_eq; reflexivity.
 Qed.
 
 Lemma consistentb_spec : forall sc a, consistentb sc a = true <-> consistent sc a.
